@@ -246,11 +246,6 @@ fn c10_representative_n1() {
 fn c10_representative_n2() {
     representative_n::<2>();
 }
-#[kani::proof]
-#[kani::unwind(5)]
-fn c10_t_representative_n3() {
-    representative_n::<3>();
-}
 
 /// Vacuity twin.
 #[kani::proof]
